@@ -30,6 +30,10 @@ Theorem c17_side_planes : forall p0 p1 p2 o m,
   g_side_plane2 p0 p1 p2 o m = place p2 o m.
 Proof. exact side_planes_spec. Qed.
 
+(** Explicit face vertices (Strata Source point_data / make_prism(set_points=True)) move with the face. *)
+Theorem c17_side_vertices : forall sp o m, g_side_strata_point sp o m = place sp o m /\ g_solid_strata_point sp o m = place sp o m.
+Proof. exact side_vertices_spec. Qed.
+
 Theorem c17_side_displacement : forall d o m,
   g_side_disp_pos d o m = place d o m /\ g_side_vert_offset d m = vrot d m /\
   g_side_vert_normal d m = vrot d m /\ g_side_vert_offset_norm d m = vrot d m.
